@@ -196,7 +196,8 @@ func (l *_LexerStateMachine) PushRune(r rune) int {
 	// A rule never matches the empty string. Without this, a rule such as
 	// A = 'a'* would be accepted again and again at the same position, and an
 	// accumulating fragment such as @frag 'k'* would be retried forever.
-	if !l.consumed {
+	fresh := !l.consumed
+	if fresh {
 		i = end
 	}
 	l.consumed = false
@@ -231,7 +232,10 @@ func (l *_LexerStateMachine) PushRune(r rune) int {
 		}
 	}
 
-	if l.state == 0 && r == -1 {
+	// End of input is only a clean end between matches. The start state can
+	// also be re-entered by a loop (A = ('a'|'b')* 'c' after "ab"), and then
+	// the characters consumed so far form no token.
+	if fresh && r == -1 {
 		if l.pending {
 			// The input ends in the middle of a construct: the accumulated
 			// text belongs to no token. Report it instead of dropping it.
